@@ -122,7 +122,13 @@ func (cl *c11Cluster) register(p int) {
 			return onFlatRow(row)
 		})
 	}
-	cl.leader.DB.RegisterQueryHandler(p, handler)
+	// a registered handler serves exactly one query and the leader runs the IN-subqueries of a statement
+	// concurrently: like a real follower (ClusterQueryConcurrency registrations per leader) the mock keeps
+	// several registrations per partition outstanding, otherwise a subquery can find the partition
+	// momentarily without handler and comes back empty (harness artefact seen as a 0-row cluster result)
+	for i := 0; i < 8; i++ {
+		cl.leader.DB.RegisterQueryHandler(p, handler)
+	}
 }
 
 func c11Hash(seed int64, parts ...interface{}) uint32 {
@@ -393,6 +399,18 @@ func c11Program(c *fw.Ctx, d *dataset) genQ {
 		}
 		g = genQ{SQL: fmt.Sprintf("SELECT SUM(x1) AS x2 FROM (SELECT SUM(%s) AS x1 FROM (SELECT %s FROM t GROUP BY %s) GROUP BY %s) GROUP BY %s",
 			f, f, strings.Join(lvl1, ", "), strings.Join(lvl2, ", "), strings.Join(lvl3, ", ")), Grouped: true}
+		if r.Intn(2) == 0 {
+			// a level that does not group at all below a level that groups by a single dimension
+			dim := lvl1[0]
+			switch r.Intn(3) {
+			case 0:
+				g.SQL = fmt.Sprintf("SELECT _points, %s FROM (SELECT _points, %s FROM (SELECT * FROM t)) GROUP BY %s", f, f, dim)
+			case 1:
+				g.SQL = fmt.Sprintf("SELECT _points, %s FROM (SELECT * FROM (SELECT _points, %s FROM t GROUP BY s, n, b)) GROUP BY %s", f, f, dim)
+			default:
+				g.SQL = fmt.Sprintf("SELECT _points FROM (SELECT * FROM (SELECT * FROM (SELECT * FROM t))) GROUP BY %s", dim)
+			}
+		}
 	case 9, 10:
 		// two IN-subqueries with different results
 		t := d.spec
